@@ -28,6 +28,9 @@ CHECKS['C18'] = dict(cat='proof', tech='contract-based deductive verification: p
 CHECKS['C04'] = dict(cat='proof', tech='contract-based deductive verification: the captured real wrapper text executed symbolically for arbitrary args/kwargs (loop summaries with quantified invariants), postconditions from the language-reference binding rule, z3 + cvc5; iter_func_args bounded run-time contract',
    text="For every enumerated signature (five parameter kinds, annotated subsets, defaults) the wrapper source that @beartype really generates is captured and executed symbolically with args an ARBITRARY tuple and kwargs an ARBITRARY dict. Proved on every path: a raised parameter violation names an annotated parameter, its value is a value Python binds to that parameter and does not conform, no earlier passed annotated parameter is left unchecked, the original is not called before; whenever the original is called it is called exactly once with *args/**kwargs unchanged after every passed annotated value (incl. each *args item and each non-parameter keyword) conformed; the returned object is the callee's result and a callee exception propagates as the same object; args/kwargs are only read. iter_func_args is covered by a bounded run-time contract against inspect.signature (labelled bounded).",
    note='Trusted: pyvc, z3/cvc5, Python semantics of pyvc/model.py, the binding rule as written in pyvc/wrapcheck.py. Bounded in the signature shape (<=2 params exhaustive + all 3-kind sequences + sample of 5-7 params in quick; <=4 exhaustive + 300 in thorough), unbounded in calls. Assumes no passed value is the private sentinel __beartype_get_violation. make_func_signature/code_check_args assembly is covered only through the enumerated signatures.', ref='4 (C04)')
+CHECKS['C17'] = dict(cat='proof', tech='contract-based deductive verification: function-mode symbolic execution of the real BeartypeConf.__new__/__eq__/__hash__ (validation helpers inlined from source), memo table as ghost map modulo ==/hash, z3 + cvc5',
+   text="The real BeartypeConf.__new__ is executed symbolically with all 17 option values symbolic and the memo table a ghost map whose lookups identify keys modulo ==/hash (so 1 and True collide as in CPython). Proved on every path: a configuration is only returned after ITS OWN options passed die_if_conf_kwargs_invalid (uniform rejection), a miss allocates a fresh object and stores it exactly once under the tuple of ALL options in order, a hit returns the stored object, a raising path raises BeartypeConfParamException and stores nothing, every private field equals the option it is named after (read-back), the hash field is the hash of the key tuple; __eq__ compares the key tuples, __hash__ returns the hash field, each public property returns its own field. BeartypeConf(**conf.kwargs) is conf is an obligation (refuted: known finding).",
+   note='Trusted: pyvc, z3/cvc5, Python semantics of pyvc/model.py incl. dict lookup modulo ==/hash. Assumed contracts: get_is_color, sanify_conf_kwargs_is_pep484_tower, issue_warning_deprecated_option; deprecated alias parameters left at None; keyword order irrelevant (language); thread clause under C15.', ref='4 (C17)')
 NA = {}
 def main():
     props = [json.loads(l) for l in open(os.path.join(V, 'properties.jsonl'))]
